@@ -1595,6 +1595,9 @@ func (w *envelopingWriter) handleTrailer() error {
 		uncompressed := w.rw.op.bufferPool.Get()
 		defer w.rw.op.bufferPool.Put(uncompressed)
 		if err := w.rw.op.server.respCompression.decompressLimited(uncompressed, data, int64(w.rw.op.methodConf.maxMsgBufferBytes)); err != nil {
+			// Report the failure, so the response is ended here. Otherwise close would
+			// run this again on a buffer that has already been returned to the pool.
+			w.rw.reportError(err)
 			return err
 		}
 		data = uncompressed
